@@ -20,8 +20,8 @@ def scenario(ck, trial, tier):
     with chaingen.Env(period=rng.choice([4, 50])) as env:
         tg = chaingen.TreeGen(env, keys, rng)
         n = tg.genesis
-        for _ in range(5):
-            n = tg.extend(n, txs=[], fees=0)
+        for k in range(5):
+            n = tg.extend(n, txs=[], fees=0, miner=chaingen.MALFORMED_PK if k == 1 else None)
         main = list(tg.nodes)
         byid = {x.id: x for x in main}
         cs0 = chaingen.impl_state_from(main)
@@ -47,6 +47,7 @@ def scenario(ck, trial, tier):
             for t in pool_txs:
                 pairs_valid.add((idm(head.id), idm(spec.sha256d(t.serialize()))))
             deliveries = []
+            torn = set()
             nsteps = 18 if tier == 'quick' else 40
             pending_mutants = []
             orphan_parent = None
@@ -102,9 +103,17 @@ def scenario(ck, trial, tier):
                 net.clock.t = max(net.clock.t, bv.time + 1)
                 if label.startswith('mutant:time-31s'):
                     net.clock.t = bv.time - 31
+                if not torn and step >= 3 and rng.random() < 0.25:
+                    # fault injection: the connection of the FIRST peer is half torn down (its socket is no longer
+                    # registered with the selector); relaying to it fails, which must not affect the other peers
+                    try:
+                        sn.lp().selector.unregister(sn.peers[0].sock.other)
+                        torn.add(0)
+                    except Exception:
+                        pass
                 before = sn.observe()
                 v = sn.block_verdicts(blk)
-                sender = rng.randrange(len(sn.peers))
+                sender = rng.choice([i for i in range(len(sn.peers)) if i not in torn])
                 if not sn.connected(sender):
                     alive = [i for i in range(len(sn.peers)) if sn.connected(i)]
                     if not alive:
@@ -137,6 +146,8 @@ def scenario(ck, trial, tier):
                                      'delivery (rows/buffer)', rp)
                     want = 1 if after['head'] == bv.id else 0
                     for p in range(len(sn.peers)):
+                        if p in torn:
+                            continue
                         if conn_before[p] and sn.connected(p) and relays[p] != want:
                             ck.violation('relay-count', 'accepted block relayed %d times to a connected peer, expected %d '
                                          '(new head: %s)' % (relays[p], want, after['head'] == bv.id), rp)
@@ -151,7 +162,7 @@ def scenario(ck, trial, tier):
                 if expect == 'accept' and not entered and fully_valid:
                     ck.violation('valid-block-not-accepted', 'a fully valid delivered block did not enter the state', rp)
                 for p in range(len(sn.peers)):
-                    if p != sender and conn_before[p] and not sn.connected(p):
+                    if p != sender and p not in torn and conn_before[p] and not sn.connected(p):
                         ck.violation('bystander-dropped', 'a delivery from one peer closed another connection', rp)
                 if sn.node.escaped:
                     ck.violation('exception-escaped', 'an exception escaped the event handler: %s' % sn.node.escaped[0][1], rp)
